@@ -2,6 +2,7 @@ mod c06;
 mod c11;
 mod c12;
 mod c13;
+mod c20;
 mod distprobe;
 mod enc;
 mod fw;
@@ -177,6 +178,15 @@ fn main() {
         Some("c11") => {
             let a = &args[2..];
             c11::run(
+                arg(a, "--seed").map(|s| s.parse().unwrap()).unwrap_or(1),
+                arg(a, "--n").map(|s| s.parse().unwrap()).unwrap_or(200),
+                &arg(a, "--out").expect("--out"),
+                arg(a, "--only").map(|s| s.parse().unwrap()),
+            )
+        }
+        Some("c20") => {
+            let a = &args[2..];
+            c20::run(
                 arg(a, "--seed").map(|s| s.parse().unwrap()).unwrap_or(1),
                 arg(a, "--n").map(|s| s.parse().unwrap()).unwrap_or(200),
                 &arg(a, "--out").expect("--out"),
